@@ -1,6 +1,6 @@
 """C13 configuration for ./check (see checks/propcfg.py for the keys)."""
 CFG = {
-    "modules": ["VaxisModel.Props.C13", "VaxisModel.Props.C13Body", "VaxisModel.Props.C13Ext", "VaxisModel.Props.C13Shift", "VaxisModel.Props.C13Child", "VaxisModel.Props.C13Parse", "VaxisModel.Props.C13Keypad", "VaxisModel.Props.C13KeypadPipe", "VaxisModel.Props.C13Uni", "VaxisModel.Witness.F413"],
+    "modules": ["VaxisModel.Props.C13", "VaxisModel.Props.C13Body", "VaxisModel.Props.C13Ext", "VaxisModel.Props.C13Shift", "VaxisModel.Props.C13Child", "VaxisModel.Props.C13Parse", "VaxisModel.Props.C13Keypad", "VaxisModel.Props.C13KeypadPipe", "VaxisModel.Props.C13Uni", "VaxisModel.Props.C13PipeUni", "VaxisModel.Witness.F413"],
     "extractors": ["C09", "C13", "C05", "C02"],
     "drivers": ["C13"],
     "trivial_prefix": ("-|-|", "-|-"),
@@ -59,7 +59,7 @@ CFG = {
                   "kernel decide over the regenerated tables: application code, or bytes of the legend key + its round trip; Begin = CSI E / SS3 E / CSI 1;m E decoded back), table theorems in both directions; "
                   "Props/C13KeypadPipe - key_pipeline / keypad_key_pipeline (bytes of encodeXterm -> parser model -> one sequence -> decodeKey matches, over the whole 4880-event and 1392-event domains x 4 modes), the keypad reports parse back through the parser model, keypad_follows_child_stream (modes as last selected by the child's stream); Witness/F413 keeps the regression statements. "
                   "encodeXterm_body_eq_model re-proved compositionally (keypad prefix evaluated symbolically + coreBody = encodeXtermCore for both environment shapes). "
-                  "Props/C13Uni: key_roundtrip_any_uni / keypad_roundtrip_any_uni - the two kernel-evaluated tables for EVERY unicode oracle that agrees with Go on ASCII and the key codes (congruence lemmas Lemmas/KeyCongr, TermKeyCongr; hypothesis evaluated on Go's tables by the hypk op). "
+                  "Props/C13PipeUni: key_pipeline_any_uni (the byte-level pipeline statement for every such oracle). Props/C13Uni: key_roundtrip_any_uni / keypad_roundtrip_any_uni - the two kernel-evaluated tables for EVERY unicode oracle that agrees with Go on ASCII and the key codes (congruence lemmas Lemmas/KeyCongr, TermKeyCongr; hypothesis evaluated on Go's tables by the hypk op). "
                   "F513 fixed (dd2d171, root decodeKey: SS3 E = Begin) so that Begin under DECCKM reads back. The oracle judges a keypad key by Spec.keypadJudgedAs (application code, or as the event of its legend key). "
                   "Observations, not defects of the property: DECSTR / XTSAVE / XTRESTORE unimplemented (select nothing), Alt + text production "
                   "is sent as ESC + key. Modelled not verified: parser, unicode tables, pty write.",
